@@ -26,6 +26,46 @@ TSA_WHOLE_TREE = True
 RELAXED, ACQUIRE, RELEASE = 0, 2, 3
 
 
+def stale_result_rule(ctx, P):
+    """CCheckQueue::Loop keeps a per-thread result that outlives one Complete() session. A failure that lost the race for
+    m_result must not survive into the next session: either (A) every executed check overwrites the private result on its
+    normal (passing) path, or (B) the private result is re-assigned/reset between the publish point and the work loop, or
+    (C) it is declared inside the per-batch loop."""
+    lp = ctx.used(P.fn("CCheckQueue::Loop"))
+    works = [st for st in stmts(lp.body) if st.get("k") == "foreach" and any(x[0] == "opcall" and x[1] == "()" for _, e in all_exprs(st["b"]) for x in subexprs(e))]
+    if len(works) != 1:
+        raise AnalysisBroken("CCheckQueue::Loop: the loop executing the checks was not recognised (%d candidates)" % len(works))
+    work = works[0]
+    # the private result variable: the local that is swapped/moved into m_result
+    pubs = [x for st, e in all_exprs(lp.body) for x in subexprs(e) if callee(x) in ("std::swap", "std::optional::swap") and "m_result" in show(x)]
+    names = {a[1] for x in pubs for a in subexprs(x) if a[0] == "local"}
+    if len(names) != 1:
+        raise AnalysisBroken("CCheckQueue::Loop: the thread-private result published into m_result was not recognised: %s" % sorted(names))
+    var = names.pop()
+    is_kill = lambda e: (e[0] == "b" and e[1] == "=" and match(["local", var], e[2])) or (e[0] == "mcall" and e[1].endswith("::reset") and match(["local", var], e[2]))
+    body = sub_function(lp, work["b"], "per-check")
+    mfa = MayFlow(body, P, kills=[("stale", is_kill)], init={"stale"})
+    out = mfa.run()
+    end_states = [s for s in (out.get("normal"), out.get("continue")) if s is not None]
+    a_ok = bool(end_states) and all("stale" not in s for s in end_states)
+    # (B): between the publish and the work loop
+    dos = [st for st in stmts(lp.body) if st.get("k") == "do"]
+    b_ok = False
+    c_ok = False
+    if dos:
+        batch = sub_function(lp, dos[0]["b"], "per-batch")
+        mfb = MustFlow(batch, P, marks=[("fresh", is_kill)], kills=[("fresh", lambda e: e in pubs)])
+        seen = []
+        mfb.on_stmt = lambda state, st, _s=seen: (_s.append(state) if st is work else None) or state
+        mfb.run()
+        b_ok = bool(seen) and all("fresh" in s for s in seen)
+        c_ok = any(st.get("k") == "decl" and st.get("n") == var for st in stmts(dos[0]["b"]))
+    ok = a_ok or b_ok or c_ok
+    ctx.ob("CCheckQueue::Loop/no-stale-result", "TYPESTATE", "a worker's private check result cannot carry a lost-race failure into the next Complete() session: every executed "
+           "(passing) check overwrites `%s`, or it is reset between publishing and the next batch" % var, ok, "%s:%s" % (lp.file, work.get("l")),
+           {"overwritten_by_each_check": a_ok, "reset_before_batch": b_ok, "declared_per_batch": c_ok})
+
+
 def check(ctx):
     P = ctx.program(UNITS)
     # (1) lock discipline of the check queue
@@ -37,6 +77,9 @@ def check(ctx):
         ok = bool(ms) and any(re.search(r"requires_capability\(!\s*(this->)?m_mutex\)", a) for x in ms for a in x.get("attrs", []))
         ctx.ob("requires/CCheckQueue::%s" % m, "TSA-ANNOT", "CCheckQueue::%s requires that m_mutex is not held (negative capability)" % m, ok, rec["file"])
     tsa.check_units(ctx, UNITS)
+
+    # (1b) no stale verdict carried across queue sessions: a worker's private result is refreshed by every executed check
+    stale_result_rule(ctx, P)
 
     # (2) overlay hand-over
     pi = ctx.used(P.fn("CoinsViewOverlay::ProcessInput"))
